@@ -432,7 +432,7 @@ def _value_id(term):
 def check_c17(out, tier):
     rnd = random.Random(common.seed() + 17)
     mine = lambda c: c.startswith("C17.")
-    for cfg in (["MC_C17_quick.cfg"] if tier == "quick" else ["MC_C17_thorough.cfg", "MC_C17_thorough3.cfg"]):
+    for cfg in (["MC_C17_quick.cfg"] if tier == "quick" else ["MC_C17_thorough.cfg", "MC_C17_thorough2.cfg"]):
         r = tlc.check_model("MC_MinIri", cfg, workers=8, timeout=3000)
         out.add_l1("MC_MinIri/" + cfg, r)
         for inv in r["violated"]:
